@@ -187,6 +187,12 @@ def step (mode : String) (toks : List String) (impl : String) : Drv.Res :=
   | some "hash" =>
     let b := parseBytes (kv toks "data")
     { model := hex (keccak b), tags := ["hash"], nontrivial := b.length > 0 }
+  | some "concval" =>
+    -- the sampled items again, from eight goroutines on one validator: every verdict is the one the item got alone
+    { model := "diffs=0 falseaccepts=0",
+      monitor := if kv (words impl) "falseaccepts" != "0" then ["accepted_only_with_hash_linked_proof_when_validated_concurrently"]
+                 else if impl != "diffs=0 falseaccepts=0" then ["same_verdict_when_validated_concurrently"] else [],
+      tags := ["concval"] }
   | _ => { model := "bad-op", tags := ["bad-op"], nontrivial := false }
 
 end Drv.C13
